@@ -1,6 +1,7 @@
 (* C06 — Scenario Outline expansion: one scenario per row, exact placeholder substitution.
    Statements only; proofs are in theories/OutlineProofs.v. *)
-From BV Require Import Base UStr Outline OutlineProofs.
+From BV Require Import Base UStr Outline OutlineProofs TableFacts.
+From BVGen Require Import OutlineTables.
 
 (* build produces exactly one scenario per examples row, in examples-block then row order, at the row's line *)
 Theorem one_scenario_per_row_in_order_at_the_rows_line :
@@ -91,3 +92,10 @@ Example an_outline_expands_and_is_rebuilt :
   | _ => False
   end.
 Proof. vm_compute. repeat split; reflexivity. Qed.
+
+(* the default name schema and the characters kept in rendered tags: decided on the table generated from model.py *)
+Theorem the_outline_defaults_are_the_documented_ones :
+  default_annotation_schema = doc_annotation_schema /\     (* {name} -- @{row.id} {examples.name} *)
+  tag_allowed_chars = doc_tag_chars.                       (* . _ - = : , ; ( ) *)
+Proof. exact outline_defaults_are_the_documented_ones. Qed.
+Print Assumptions the_outline_defaults_are_the_documented_ones.
